@@ -167,8 +167,10 @@ def normalize(scen):
         g = groups[j["group"]]
         if j["est"] > g["wall_min"]:
             j["est"] = g["wall_min"]
+    from .oracle_batch import WALLTIME_SPELLINGS
+
     for g in scen["groups"]:
-        g["walltime"] = f"0:{g['wall_min']:02d}:00"
+        g["walltime"] = WALLTIME_SPELLINGS[g.get("wall_spelling") or "hms"](g["wall_min"])
         if g["time_based"] and g["procs_opt"] is None:
             g["procs_opt"] = 2
         g["procs"] = g["procs_opt"] if g["procs_opt"] else 3
